@@ -7,8 +7,10 @@ package gocql
 
 import (
 	"bytes"
+	"context"
 	"encoding/hex"
 	"fmt"
+	"strconv"
 	"strings"
 	"sync"
 	"testing"
@@ -309,7 +311,24 @@ type vxC05ConvCase struct {
 	Mut     vxMut             `json:"mut"`   // optional mutation of its body
 	Auth    bool              `json:"auth"`  // server demands authentication (reaches AUTH_RESPONSE)
 	Nth     int               `json:"nth"`   // apply to the nth occurrence of that step (0 or 1)
+	Obs     int               `json:"obs,omitempty"` // 1: StreamObserver whose StreamContext returns nil (documented as allowed); 2: all observers set (stream contexts returned)
 }
+
+// observers for the conversation part: they only have to be called without harm
+type vxNilStreamObs struct{}
+
+func (vxNilStreamObs) StreamContext(context.Context) StreamObserverContext { return nil }
+
+type vxAllObs struct{}
+
+func (vxAllObs) StreamContext(context.Context) StreamObserverContext    { return vxAllObs{} }
+func (vxAllObs) StreamStarted(ObservedStream)                            {}
+func (vxAllObs) StreamAbandoned(ObservedStream)                          {}
+func (vxAllObs) StreamFinished(ObservedStream)                           {}
+func (vxAllObs) ObserveQuery(context.Context, ObservedQuery)             {}
+func (vxAllObs) ObserveBatch(context.Context, ObservedBatch)             {}
+func (vxAllObs) ObserveConnect(ObservedConnect)                          {}
+func (vxAllObs) ObserveFrameHeader(context.Context, ObservedFrameHeader) {}
 
 var vxC05Steps = []string{"OPTIONS", "STARTUP", "AUTH_RESPONSE", "REGISTER", "system.local", "system.peers", "USE", "PREPARE", "EXECUTE", "BATCH", "QUERY", "HEARTBEAT", "EVENT", "EVENT"}
 
@@ -338,10 +357,10 @@ func vxStepOf(rc *vnode.ReqCtx) string {
 func TestVxC05Conversation(t *testing.T) {
 	vx.Check(t, vx.Prop{
 		ID: "C05", Part: "TestVxC05Conversation",
-		Rule: "a real session (protocol 1..5, with or without authentication, keyspace set) whose node answers ONE step of the conversation (OPTIONS, STARTUP, AUTH_RESPONSE, REGISTER, system.local, system.peers, USE, PREPARE, EXECUTE, BATCH, QUERY, heartbeat OPTIONS; first or second occurrence) with a well-formed response of a drawn other kind (C04's generator) or a mutated body; then session creation, a plain query, a prepared query and a batch are attempted; oracle: every call returns within the watchdog with a value or an error, the process survives (no panic on driver goroutines); non-trivial = the odd response kind differs from the one the step expects; distinct by the case",
+		Rule: "a real session (protocol 1..5, with or without authentication, keyspace set; without observers, with a StreamObserver whose StreamContext returns nil, or with every observer of ClusterConfig set) whose node answers ONE step of the conversation (OPTIONS, STARTUP, AUTH_RESPONSE, REGISTER, system.local, system.peers, USE, PREPARE, EXECUTE, BATCH, QUERY, heartbeat OPTIONS; first or second occurrence) with a well-formed response of a drawn other kind (C04's generator) or a mutated body; then session creation, a plain query, a prepared query and a batch are attempted; oracle: every call returns within the watchdog with a value or an error, the process survives (no panic on driver goroutines); non-trivial = the odd response kind differs from the one the step expects; distinct by the case",
 		Draw: func(t *rapid.T) interface{} {
 			c := &vxC05ConvCase{Proto: rapid.IntRange(1, 5).Draw(t, "proto"), Step: rapid.SampledFrom(vxC05Steps).Draw(t, "step"),
-				Auth: rapid.IntRange(0, 2).Draw(t, "auth") == 0, Nth: rapid.IntRange(0, 1).Draw(t, "nth")}
+				Auth: rapid.IntRange(0, 2).Draw(t, "auth") == 0, Nth: rapid.IntRange(0, 1).Draw(t, "nth"), Obs: rapid.SampledFrom([]int{0, 0, 1, 2}).Draw(t, "obs")}
 			if c.Step == "AUTH_RESPONSE" {
 				c.Auth = true
 			}
@@ -378,6 +397,7 @@ func TestVxC05Conversation(t *testing.T) {
 			}
 			k.Class("step=" + c.Step)
 			k.Class("resp=" + c.Resp.Kind)
+			k.Class(fmt.Sprintf("observers=%d", c.Obs))
 			k.NonTrivial()
 			cl := vnode.NewCluster(vxSpecs(1, 1))
 			node := cl.Nodes()[0]
@@ -426,6 +446,13 @@ func TestVxC05Conversation(t *testing.T) {
 					cfg.Keyspace = "ks1"
 					if c.Auth {
 						cfg.Authenticator = PasswordAuthenticator{Username: "u", Password: "p"}
+					}
+					switch c.Obs {
+					case 1:
+						cfg.StreamObserver = vxNilStreamObs{}
+					case 2:
+						cfg.StreamObserver, cfg.QueryObserver, cfg.BatchObserver = vxAllObs{}, vxAllObs{}, vxAllObs{}
+						cfg.ConnectObserver, cfg.FrameHeaderObserver = vxAllObs{}, vxAllObs{}
 					}
 				}).CreateSession()
 				out = append(out, outcome{"CreateSession", err})
@@ -520,7 +547,7 @@ func TestVxC04Session(t *testing.T) {
 				}
 			}
 			return &vxC04SessCase{Resp: r, Prepared: rapid.Bool().Draw(t, "prepared"), NoSkip: rapid.IntRange(0, 3).Draw(t, "noskip") == 0,
-				Codec: rapid.SampledFrom([]string{"", "", "snappy", "lz4"}).Draw(t, "codec"), Consumer: rapid.IntRange(0, 3).Draw(t, "consumer"),
+				Codec: rapid.SampledFrom([]string{"", "", "snappy", "lz4"}).Draw(t, "codec"), Consumer: rapid.IntRange(0, 4).Draw(t, "consumer"),
 				Batch: rapid.IntRange(0, 4).Draw(t, "batch") == 0}
 		},
 		New: func() interface{} { return &vxC04SessCase{} },
@@ -1024,7 +1051,7 @@ var vxC09Kinds = map[string]*cqlspec.Type{"int": cqlspec.Scalar(cqlspec.Int), "b
 
 func TestVxC09SessionRoutingKey(t *testing.T) {
 	vx.Check(t, vx.Prop{ID: "C09", Part: "TestVxC09SessionRoutingKey",
-		Rule: "the routing-key cases of TestVxC09RoutingKey through the public API: a real protocol-4/5 session prepares a statement whose PREPARED response (scripted node) declares the bound columns and the partition-key indexes in partition-key order; Query.GetRoutingKey() must be the raw value (single key) or len16|bytes|0 per component in partition-key order; non-trivial = >= 2 components bound out of partition-key order; distinct by the case",
+		Rule: "the routing-key cases of TestVxC09RoutingKey through the public API: a real protocol-4/5 session prepares a statement whose PREPARED response (scripted node) declares the bound columns and the partition-key indexes in partition-key order; Query.GetRoutingKey() must be the raw value (single key) or len16|bytes|0 per component in partition-key order, also after the same Query object is bound again (Query.Bind) with other key values; non-trivial = >= 2 components bound out of partition-key order; distinct by the case",
 		Draw: func(t *rapid.T) interface{} {
 			c := vxC09DrawRK(t)
 			if c.Proto < 4 {
@@ -1095,7 +1122,8 @@ func TestVxC09SessionRoutingKey(t *testing.T) {
 			}
 			defer s.Close()
 			stmt := "SELECT * FROM t WHERE " + strings.TrimSuffix(strings.Repeat("c = ? AND ", c.NVals), " AND ")
-			got, err := s.Query(stmt, values...).GetRoutingKey()
+			q := s.Query(stmt, values...)
+			got, err := q.GetRoutingKey()
 			if err != nil {
 				return fmt.Errorf("GetRoutingKey failed: %v", err)
 			}
@@ -1103,9 +1131,65 @@ func TestVxC09SessionRoutingKey(t *testing.T) {
 			if !bytes.Equal(got, want) {
 				return fmt.Errorf("GetRoutingKey() = %x, want %x (components %v bound at %v)", got, want, c.Comps, c.Idx)
 			}
+			// second use of the same Query object: Bind other values (the low bit of every numeric / textual
+			// component flipped), the routing key must follow
+			values2 := append([]interface{}{}, values...)
+			var encs2 [][]byte
+			changed := false
+			for i, comp := range c.Comps {
+				c2, ok := vxC09Tweak(comp)
+				if !ok {
+					c2 = comp
+				}
+				ti, v, _, err := vxC09Value(c2, byte(c.Proto))
+				if err != nil {
+					return nil
+				}
+				enc, err := Marshal(ti, v)
+				if err != nil || (n == 1 && len(enc) == 0) {
+					return nil
+				}
+				changed = changed || !bytes.Equal(enc, encs[i])
+				values2[c.Idx[i]] = v
+				encs2 = append(encs2, enc)
+			}
+			if !changed {
+				k.Class("rebind: no component could be changed")
+				return nil
+			}
+			k.Class("rebind")
+			got2, err := q.Bind(values2...).GetRoutingKey()
+			if err != nil {
+				return fmt.Errorf("GetRoutingKey after Bind failed: %v", err)
+			}
+			if want2 := cqlspec.RoutingKey(encs2); !bytes.Equal(got2, want2) {
+				return fmt.Errorf("the same Query bound again: GetRoutingKey() = %x, want %x (first binding gave %x)", got2, want2, got)
+			}
 			return nil
 		},
 	})
+}
+
+// vxC09Tweak returns the component with another value of the same type (low bit flipped), if the type allows.
+func vxC09Tweak(c vxC09Comp) (vxC09Comp, bool) {
+	switch c.T {
+	case "int", "bigint", "smallint", "tinyint", "timestamp", "time":
+		v, err := strconv.ParseInt(c.V, 10, 64)
+		if err != nil {
+			return c, false
+		}
+		c.V = strconv.FormatInt(v^1, 10)
+		return c, true
+	case "text", "varchar", "ascii", "blob":
+		b, err := hex.DecodeString(c.V)
+		if err != nil || len(b) == 0 {
+			return c, false
+		}
+		b[len(b)-1] ^= 1
+		c.V = hex.EncodeToString(b)
+		return c, true
+	}
+	return c, false
 }
 
 // ---- C05: a second page that does not match the first -------------------------------------------------
